@@ -709,8 +709,34 @@ def install(pool=False):
     from more_executors._impl.futures import base as fbase
     fbase.EXECUTOR._shutdown._lock = DRLock()
     _GLOBALS.append(fbase.EXECUTOR._shutdown._lock)
+    # whatever else a module of the library binds to a real threading primitive (a changed import, a different lock type)
+    # is replaced too: a real Lock would block the carrier thread for real and the scheduler could neither see nor
+    # report the deadlock
+    import pkgutil, importlib, more_executors._impl as _impl_pkg
+    real = {"Lock": (_t.Lock, DLock), "RLock": (_t.RLock, DRLock), "Event": (_t.Event, DEvent), "Thread": (_t.Thread, DThread),
+            "Condition": (_t.Condition, DCondition), "Semaphore": (_t.Semaphore, DSemaphore)}
+    shim_threading = _ThreadingShim()
+    for info in pkgutil.walk_packages(_impl_pkg.__path__, _impl_pkg.__name__ + "."):
+        try:
+            m = importlib.import_module(info.name)
+        except Exception:       # noqa  (asyncio / prometheus variants that cannot be imported here)
+            continue
+        for nm, (r, d) in real.items():
+            if m.__dict__.get(nm) is r:
+                setattr(m, nm, d)
+        if m.__dict__.get("threading") is _t:
+            m.threading = shim_threading
     if pool:
         install_pool()
+
+
+class _ThreadingShim(object):
+    """stands in for the `threading` module inside library modules that use it qualified"""
+    Lock = None
+    RLock = None
+
+    def __getattr__(self, n):
+        return getattr(_t, n)
 
 
 class _QuietRLock(DRLock):
@@ -730,6 +756,14 @@ def install_pool():
     lk = DLock()
     lk.quiet = True
     cft._global_shutdown_lock = lk
+
+
+_ThreadingShim.Lock = DLock
+_ThreadingShim.RLock = DRLock
+_ThreadingShim.Event = DEvent
+_ThreadingShim.Thread = DThread
+_ThreadingShim.Condition = DCondition
+_ThreadingShim.Semaphore = DSemaphore
 
 
 # ---- running ---------------------------------------------------------------------------------
